@@ -144,3 +144,18 @@ func DebugRangeString(p *core.Program) {
 		}
 	}
 }
+
+// DebugDroppedErrors lists module calls whose error never reaches a return, per function of the naming handler.
+func DebugDroppedErrors(p *core.Program) {
+	for _, fn := range p.ModuleFunctions() {
+		if fn.Pkg == nil {
+			continue
+		}
+		for _, c := range droppedErrors(fn, core.InModule) {
+			if strings.Contains(shortCallee(c), "fastlog") {
+				continue
+			}
+			fmt.Println(p.Pos(core.PosOf(c.(ssa.Instruction))), core.FuncName(fn), "drops the error of", shortCallee(c))
+		}
+	}
+}
